@@ -445,8 +445,17 @@ def rule_wq_requester(ctx, rep):
     ors = [e for e in pat.accesses(pw, "urcu_workqueue.flags", ("rmw",)) if e.rop == "or"]
     pat.require(len(ors) == 1, "pause_worker: one `or` on flags")
     PAUSE = ir.const_of(pw, ors[0].val)
-    wk = pat.calls(pw, "wake_worker_thread")
-    pat.require(wk, "pause_worker: wake_worker_thread")
+    def _wakes(c, depth=3):
+        if mm.is_futex(c, mm.FUTEX_WAKE):
+            return True
+        if c.op == "call" and c.callee in ("futex_noasync", "futex_async", "compat_futex_noasync", "compat_futex_async") and len(c.args) > 1 and ir.const_of(c.fn, c.args[1]) == mm.FUTEX_WAKE:
+            return True
+        g = m.fn(c.callee) if c.op == "call" and c.callee else None
+        if g is None or not g.blocks or depth == 0 or g.name.startswith("urcu_workqueue_"):
+            return False
+        return any(x.op == "call" and _wakes(x, depth - 1) for x in g.all_insts())
+    wk = [c for c in pw.all_insts() if c.op == "call" and _wakes(c)]      # the waking helper, by what it does
+    pat.require(wk, "pause_worker: no FUTEX_WAKE of the worker")
     rep.must_pass("C16.wqreq", "pause.PAUSE≺barrier≺wake", pw, [ors[0].inst], wk, lambda i: mm.is_compiler(i, pw.mod) and i is not ors[0].inst, what=">=compiler barrier between requesting PAUSE and waking the worker")
     paused_edges = [(t.blk.id, s_, a) for t, s_, a in pat.branch_edges_on(pw, lambda a: a[0] in ("eq", "ne") and a[2] == ("c", 0) and a[1][0] == "bin" and a[1][1] == "and" and a[1][2][0] == "load" and a[1][2][1].endswith("urcu_workqueue.flags"))]
     pat.require(paused_edges, "pause_worker: wait on PAUSED")
